@@ -1403,6 +1403,21 @@ def c18_values(tier, seed):
             add("repr_evaluates_back", a, back, "sys.maxsize round trip")
     except Exception as exc:
         add("repr_evaluates_back", a, None, repr(exc))
+    # every action of MixedCheckpointSchedule on the tabulated (numba) planner path, forced from the
+    # harness: plain ints, repr round trip (the default path is covered by the stream box)
+    import checkpoint_schedules.mixed as _mixed
+    for n in range(1, 13 if tier == "quick" else 31):
+        for s_ in range(min(1, n - 1), min(n, 5) + 1):
+            spec = ("Mixed", (n, s_), (("storage", "RAM" if (n + s_) % 2 else "DISK"),), n)
+            _mixed.numba = object()
+            try:
+                b = drive(spec, keep_stream=False, observe=True)
+            finally:
+                _mixed.numba = None
+            r["evaluations"] += 1
+            for p_, c_, d_ in b["viol"]:
+                if p_ == "C18" and sum(1 for v in r["violations"] if v["clause"] == c_) < 5:
+                    r["violations"].append(_viol("C18", c_, spec, "tabulated planner path: " + d_))
     return r
 
 
